@@ -39,9 +39,9 @@ func (p *Pool) Bindcheck(code, goal string, opts map[string]interface{}) (bindRe
 	err := p.Call(map[string]interface{}{"op": "bindcheck", "code": code, "goal": goal, "opts": opts}, &b)
 	return b, err
 }
-func (p *Pool) Bindalign(a, b, goalA, goalB string) (alignResult, error) {
+func (p *Pool) Bindalign(a, b, goalA, goalB string, sameNames bool) (alignResult, error) {
 	var res alignResult
-	err := p.Call(map[string]interface{}{"op": "bindalign", "a": a, "b": b, "goalA": goalA, "goalB": goalB}, &res)
+	err := p.Call(map[string]interface{}{"op": "bindalign", "a": a, "b": b, "goalA": goalA, "goalB": goalB, "sameNames": sameNames}, &res)
 	return res, err
 }
 
@@ -233,6 +233,7 @@ func c15Program(r *Run, pool *Pool, st *c15Stats, rng *Rng, src string, sloppy, 
 	var names []string
 	var codes []string
 	var wrappedOut []bool
+	passPlain := ""
 	for _, v := range vs {
 		res, pan := transformSafe(src, v.opts)
 		if pan != "" {
@@ -288,8 +289,17 @@ func c15Program(r *Run, pool *Pool, st *c15Stats, rng *Rng, src string, sloppy, 
 		if v.name != "passthrough" && plain != stripTags(codes0(codes)) {
 			atomic.AddInt64(&st.renamedOutputs, 1)
 		}
-		if v.align {
-			a, err := pool.Bindalign(src, plain, refGoal, v.goal)
+		if v.name == "passthrough" {
+			passPlain = plain
+		}
+		// the input is aligned with the pass-through output (same names required); every renamed output is aligned with the
+		// pass-through output, which has the same structure (esbuild restructures some code, e.g. sloppy block-level functions)
+		alignA, alignGoal := src, refGoal
+		if v.name != "passthrough" {
+			alignA, alignGoal = passPlain, refGoal
+		}
+		if v.align && alignA != "" {
+			a, err := pool.Bindalign(alignA, plain, alignGoal, v.goal, v.name == "passthrough")
 			if err == nil && a.OK {
 				if a.Aligned {
 					atomic.AddInt64(&st.aligned, 1)
